@@ -2,6 +2,7 @@
 From Coq Require Import Floats.
 From mathcomp Require Import all_ssreflect all_algebra.
 From LS Require Import NumOps RcfOps F64Ops Kernels Pca Distance Select SelectSpec.
+From LS Require RandRange.
 Set Implicit Arguments. Unset Strict Implicit. Unset Printing Implicit Defensive.
 Import Order.TTheory GRing.Theory Num.Theory.
 
@@ -68,6 +69,13 @@ Theorem C17_label_is_nearest (cents : seq (seq R)) x : (0 < size cents)%N ->
 Proof. exact: nearest_spec. Qed.
 End Exact.
 
+(* the random initialisers (random objects, k-means++ seeding) pick object indices with randInt(0, n): for the function
+   REGENERATED from numeric.c on every run (Gen_Leaf.randInt_out: the raw 32-bit draw reduced into [low, high)), EVERY raw draw
+   0 .. 2^32 - 1 — the largest one included — gives an index in 0 .. n-1, for every number of objects below 2^31 *)
+Theorem C17_random_index_in_range : RandRange.random_index_in_range_stmt.
+(* = forall x n : Z, 0 <= x < 2^32 -> 0 < n < 2^31 -> 0 <= Gen_Leaf.randInt_out x 0 n < n *)
+Proof. exact: RandRange.random_index_in_range. Qed.
+
 Local Open Scope float_scope.
 Example C17_f64_both_agree :
   let X := [:: [:: 0; 0]; [:: 1; 0.5]; [:: 5; 5]; [:: 0.25; 4]; [:: 3; 1]] in
@@ -75,6 +83,7 @@ Example C17_f64_both_agree :
 Proof. by vm_compute. Qed.
 
 Print Assumptions C17_selection_valid.
+Print Assumptions C17_random_index_in_range.
 Print Assumptions C17_maxdis_fast_agrees.
 Print Assumptions C17_maxdis_greedy.
 Print Assumptions C17_kmeans_result.
